@@ -1,12 +1,12 @@
 #!/bin/bash
-# reseed_all.sh [jobs] : re-runs the check of every seeded change (seeded/<Cxx>_m<i>, _r2m<i>, _r3m<i>, _r4m<i>) against the
+# reseed_all.sh [jobs] : re-runs the check of every seeded change (seeded/<Cxx>_m<i>, _r2m<i>, _r3m<i>, _r4m<i>, _r5m<i>) against the
 # current machinery, each in its own scratch copy (tools/seedtest.sh), <jobs> at a time (default 3), and writes one
 # line per change to /verif/seeded/recheck.txt.  Run by hand after larger changes of the harness or the models; it is
 # not part of any registered check.  Scratch: /tmp/seedtest/rs<k> (removed at the end).
 jobs=${1:-3}
 out=/verif/seeded/recheck.txt
 : > $out.tmp
-ls -d /verif/seeded/C??_m? /verif/seeded/C??_r2m? /verif/seeded/C??_r3m? /verif/seeded/C??_r4m? 2>/dev/null | sort > /tmp/reseed_list.txt
+ls -d /verif/seeded/C??_m? /verif/seeded/C??_r2m? /verif/seeded/C??_r3m? /verif/seeded/C??_r4m? /verif/seeded/C??_r5m? 2>/dev/null | sort > /tmp/reseed_list.txt
 worker() {
   k=$1
   while true; do
